@@ -665,14 +665,15 @@ impl TypedStmt {
                 vec![]
             }
             StmtEnum::ForEachLoop(pattern, array, body) => {
-                let (elem_in_bits, _) = array
+                let (elem_in_bits, num_elems) = array
                     .ty
                     .unwrap_array_size(prg, circuit.const_sizes())
                     .expect("Found a non-array value in an array access expr");
                 let array = array.compile(prg, env, circuit);
 
-                let mut i = 0;
-                while i < array.len() {
+                // one iteration per element (also for elements of size 0, where `array` is empty)
+                for k in 0..num_elems {
+                    let i = k * elem_in_bits;
                     // every iteration has its own scope: a binding made in the body (or by the
                     // loop pattern) must not be visible in the next iteration
                     env.push();
@@ -683,7 +684,6 @@ impl TypedStmt {
                         stmt.compile(prg, env, circuit);
                     }
                     env.pop();
-                    i += elem_in_bits;
                 }
                 vec![]
             }
